@@ -81,6 +81,11 @@ def norm_sig(sig):
     return params, ret
 
 
+def _has_addr_field(fs):
+    """the contract's config record names its factory: it has an address-typed field (a migration stamp or a counter has none)"""
+    return any(re.search(r"^cosmwasm_std::(\S*::)?(Addr|CanonicalAddr)$", t) for t in fs.values())
+
+
 def res(ok, err=STD):
     return "std::result::Result<%s, %s>" % (ok, err)
 
@@ -132,6 +137,13 @@ class Names:
                 fs = {f["name"]: norm_ty(f["ty"]) for f in a["variants"][0]["fields"]}
                 if all(n in fs and (t is None or fs[n] == t) for n, t in fields.items()) and (not exact or set(fs) == set(fields)):
                     hs.append(a["path"])
+            if exact and not hs:
+                # the same record with additional (informational) fields
+                for a in self._adts():
+                    if a["kind"] == "struct":
+                        fs = {f["name"]: norm_ty(f["ty"]) for f in a["variants"][0]["fields"]}
+                        if all(n in fs and (t is None or fs[n] == t) for n, t in fields.items()):
+                            hs.append(a["path"])
             return self._one(what, hs)
         return self._once(("struct", what), go)
 
@@ -312,11 +324,11 @@ class Names:
 
     @property
     def PAIR_CONFIG(self):
-        return self._local_struct_item("pair", lambda fs: True, "Item<local struct>: pair config", local_only=True)
+        return self._local_struct_item("pair", _has_addr_field, "Item<local struct with an address field>: pair config", local_only=True)
 
     @property
     def ROUTER_CONFIG(self):
-        return self._local_struct_item("router", lambda fs: True, "Item<local struct>: router config", local_only=True)
+        return self._local_struct_item("router", _has_addr_field, "Item<local struct with an address field>: router config", local_only=True)
 
     # ------------------------------------------------------------------ functions
     def _sig_index(self):
@@ -333,6 +345,25 @@ class Names:
         """The unique production function with exactly these (lifetime-erased) parameter and return types."""
         def go():
             hs = [f for f, ps, r in self._sig_index() if ps == list(params) and r == ret and (among is None or f.path in among)]
+            if not hs:
+                # the same role taking a parameter by reference instead of by value (or the reverse): references are
+                # transparent in the value graph, positions and types are what the rules rely on
+                def unref(ts):
+                    return [re.sub(r"^&(mut )?", "", t) for t in ts]
+                hs = [f for f, ps, r in self._sig_index() if unref(ps) == unref(params) and r == ret and (among is None or f.path in among)]
+                if not hs and len(set(unref(params))) == len(params) and len(params) >= 2:
+                    # the same role with its (pairwise differently typed) parameters in another order: calls of it are read in the
+                    # canonical order (Program.val_call consults _arg_perm), so the rules' positional slots keep their meaning
+                    for f, ps, r in self._sig_index():
+                        if r == ret and sorted(unref(ps)) == sorted(unref(params)) and (among is None or f.path in among):
+                            hs.append(f)
+                    if len(hs) == 1:
+                        ups = unref([p_ for f_, ps_, r_ in self._sig_index() if f_ is hs[0] for p_ in ps_])
+                        perm = [ups.index(t) for t in unref(params)]
+                        if not hasattr(self.P, "_arg_perm"):
+                            self.P._arg_perm = {}
+                        self.P._arg_perm[hs[0].path] = perm
+                        self.P._val_memo.clear()
             if optional and not hs:
                 return None
             return self._one("%s  fn(%s) -> %s" % (what, ", ".join(params), ret), hs)
@@ -363,7 +394,18 @@ class Names:
     # asset helpers
     @property
     def funds_check(self):
-        return self.by_sig("native-funds check", ["&" + self.Asset, "&cosmwasm_std::MessageInfo"], res("()"))
+        try:
+            return self.by_sig("native-funds check", ["&" + self.Asset, "&cosmwasm_std::MessageInfo"], res("()"))
+        except AnchorMissing as e0:
+            # the check taking just the attached coins (`funds: &[Coin]`) instead of the whole MessageInfo
+            for fty in ("&[cosmwasm_std::Coin]", "&std::vec::Vec<cosmwasm_std::Coin>"):
+                try:
+                    f = self.by_sig("native-funds check", ["&" + self.Asset, fty], res("()"))
+                    self.funds_check_takes_funds = True
+                    return f
+                except AnchorMissing:
+                    pass
+            raise e0
 
     @property
     def transfer_ctor(self):
